@@ -4,9 +4,12 @@
 // instrumented mock members and nested chains) bound to one local and one
 // remote stream, a sequence of application RTP writes / RTP reads / RTCP reads
 // / RTCP writes against a scripted transport (error injection at chosen
-// positions), then a teardown history (UnbindLocalStream / UnbindRemoteStream /
+// positions; while writing the application may bind the local stream again or
+// bind a second one - every binding has a next writer of its own and every
+// Write goes through one binding's writer), then a teardown history (UnbindLocalStream / UnbindRemoteStream /
 // Close in the order the case prescribes, counters of the instrumented members
-// snapshotted after every call).  Observables are projected to compact Coq
+// snapshotted after every call; the Close error is projected as a tree, entry by
+// entry, and by the lines of its message).  Observables are projected to compact Coq
 // terms (packet contents interned per case by exact byte equality).
 package main
 
